@@ -155,15 +155,19 @@ Base(p) ==
   IN {Case("base", Tok(p, "id1", GoodClaims), <<E(s.key, s.alg, "id2", "none"), E(p[1], p[2], "id1", "none")>>, m, r),
       Case("base", Tok(p, Absent, GoodClaims), <<E(s.key, s.alg, Absent, "none"), E(p[1], p[2], Absent, "none")>>, m, r)}
 
-Cases ==
-  UNION {Base(p) : p \in Pairs}
-  \cup UNION {Crypto(p, Thorough \/ p \in Primary) : p \in Pairs}
-  \cup UNION {Claims(p) : p \in IF Thorough THEN Pairs ELSE Primary}
-  \cup UNION {CrossQuick(p) : p \in Primary}
-  \cup (IF Thorough THEN UNION {CrossFull(p) : p \in Primary} ELSE {})
+(* The cases are written piece by piece (one piece per key/alg pair) so    *)
+(* that no set of all cases has to be built.                               *)
+PerPair(p) ==
+  Base(p) \cup Crypto(p, Thorough \/ p \in Primary)
+  \cup (IF Thorough \/ p \in Primary THEN Claims(p) ELSE {})
+
+PerPrimary(p) == CrossQuick(p) \cup (IF Thorough THEN CrossFull(p) ELSE {})
 
 ASSUME
-  LET cs == SetToSeq(Cases)
+  LET ps == SetToSeq(Pairs)
+      pr == SetToSeq(Primary)
+      cs == FlattenSeq([i \in 1..Len(ps) |-> SetToSeq(PerPair(ps[i]))])
+            \o FlattenSeq([i \in 1..Len(pr) |-> SetToSeq(PerPrimary(pr[i]))])
   IN /\ ndJsonSerialize(OutFile, cs)
      /\ PrintT(<<"GENERATED", Len(cs)>>)
 =============================================================================
